@@ -109,8 +109,8 @@ def eval_d_unit(unit, specs_results):
 # ----------------------------------------------------------------------------- general specs
 def general_spec(rng, name, *, nonfinite=0.0, metrics=None, constraint=False, max_calls=3, memory=None,
                  verbosity=None, sizes=(1, 2, 3, 5, 8), max_points=120, n_max=14, warm=0, cfg=None, steps_api=None,
-                 ndims=None):
-    space, meta = gen.gen_space(rng, ndims=ndims, sizes=sizes, max_points=max_points)
+                 ndims=None, dups=0.0):
+    space, meta = gen.gen_space(rng, ndims=ndims, sizes=sizes, max_points=max_points, dups=dups)
     m = rng.choice([0, 0, 1, 2]) if metrics is None else metrics
     table, kind = gen.gen_table(rng, space, nonfinite=nonfinite, metrics=m)
     feas = None
